@@ -342,8 +342,10 @@ fn valid_bitmap(b: &[u8]) -> bool {
         if w <= last || l == 0 || l > 32 || p + 2 + l > b.len() {
             return false;
         }
-        // RFC 4034 4.1.2: trailing zero octets MUST be omitted (composer rule).
-        // Readers commonly tolerate them; we do not judge that here.
+        // RFC 4034 4.1.2: "Trailing zero octets in the bitmap MUST be omitted."
+        if b[p + 1 + l] == 0 {
+            return false;
+        }
         last = w;
         p += 2 + l;
     }
@@ -465,10 +467,19 @@ pub fn decode_rdata(msg: &[u8], start: usize, rdlen: usize, t: u16) -> Result<Ve
                 if !valid_bitmap(&msg[p..end]) {
                     return Err(RdataErr("bad type bitmap"));
                 }
+                // an NSEC RR lists at least NSEC itself (RFC 4034 4.1.2, RFC 6840 6.4 allows
+                // the empty bitmap for NSEC3 only)
+                if t == T_NSEC && p == end {
+                    return Err(RdataErr("empty NSEC type bitmap"));
+                }
                 out.push(Fv::Raw(msg[p..end].to_vec()));
                 p = end;
             }
             F::Rest => {
+                // RFC 8976 2.2.4: a ZONEMD digest is at least 12 octets
+                if t == T_ZONEMD && end - p < 12 {
+                    return Err(RdataErr("ZONEMD digest shorter than 12 octets"));
+                }
                 out.push(Fv::Raw(msg[p..end].to_vec()));
                 p = end;
             }
